@@ -4,6 +4,7 @@ Monitors: transitive / direct dependency sets and dependency-graph edges reporte
 function of a generated reference graph; the outcome of hidden dynamic calls at run time.
 Oracle: graph reachability on the generated data."""
 import collections
+import copy
 import importlib
 import itertools
 import json
@@ -338,6 +339,25 @@ def run_random(case, out, fail):
             u, t = rng.choice(cands)
             nodes[u]["cbdefault"] = t
             out["obs"]["programs_with_a_function_as_default_value"] += 1
+    if case["idx"] % 5 == 2:
+        # aimed: R (automatic version) calls V (explicit version), V reaches X through a hidden call (allowed: V is
+        # pinned), and only afterwards R itself takes a hidden edge to X, which is outside R's static closure
+        nodes = prog["nodes"]
+        trip = [(r, v, x) for r in range(len(nodes)) for v in range(r + 1, len(nodes)) for x in range(v + 1, len(nodes))
+                if all(nodes[i]["kind"] == "memento" and nodes[i]["mod"] == nodes[r]["mod"] for i in (r, v, x))
+                and nodes[r]["version"] is None]
+        rng.shuffle(trip)
+        for r, v, x in trip:
+            saved = [copy.deepcopy(nodes[i]) for i in (r, v)]
+            if nodes[v]["version"] is None:
+                nodes[v]["version"] = "pin"
+            nodes[v]["calls"].append({"t": x, "form": "hidden"})
+            nodes[r]["calls"] = [c for c in nodes[r]["calls"] if c["t"] != x] + [{"t": v, "form": "bare"}, {"t": x, "form": "hidden"}]
+            if x in static_closure(prog, r):
+                nodes[r], nodes[v] = saved
+                continue
+            out["obs"]["programs_with_a_hidden_edge_after_a_pinned_callee_reached_the_target"] += 1
+            break
     with env.Scratch() as sc:
         try:
             got = procs.in_child(random_child, {"prog": prog, "root": sc.path("p")})
